@@ -381,3 +381,138 @@ Proof.
       * destruct RR2 as [RR2|[RR2 _]]; congruence.
       * destruct SS1 as (_ & _ & _ & P1 & _). destruct SS2 as (_ & _ & _ & P2 & _). congruence.
 Qed.
+
+(** * Transitions that leave (K, tasks, sem_free, sem_wait) alone, or only append fresh tasks *)
+Definition core_eq (s s' : state) : Prop :=
+  c_K s' = c_K s /\ tasks s' = tasks s /\ sem_free s' = sem_free s /\ sem_wait s' = sem_wait s.
+
+Definition extends (s s' : state) : Prop :=
+  c_K s' = c_K s /\ sem_free s' = sem_free s /\ sem_wait s' = sem_wait s /\
+  exists new, tasks s' = tasks s ++ new /\ Forall fresh new.
+
+Lemma core_eq_refl s : core_eq s s.
+Proof. repeat split. Qed.
+
+Lemma core_eq_trans a b c : core_eq a b -> core_eq b c -> core_eq a c.
+Proof. unfold core_eq. intuition congruence. Qed.
+
+Lemma core_eq_extends s s' : core_eq s s' -> extends s s'.
+Proof.
+  intros (K & T & F & Q). split; auto. split; auto. split; auto.
+  exists []. rewrite app_nil_r. split; auto.
+Qed.
+
+Lemma extends_trans a b c : extends a b -> extends b c -> extends a c.
+Proof.
+  intros (K1 & F1 & Q1 & n1 & T1 & N1) (K2 & F2 & Q2 & n2 & T2 & N2).
+  split; [congruence|]. split; [congruence|]. split; [congruence|].
+  exists (n1 ++ n2). split; [rewrite T2, T1, app_assoc; reflexivity|apply Forall_app; auto].
+Qed.
+
+Lemma extends_wf s s' : extends s s' -> wf s -> wf s'.
+Proof.
+  intros (K & F & Q & new & T & N) [W I4]. unfold wf, wf0. rewrite K, F, Q, T. split; auto.
+  apply wfp_app; auto.
+Qed.
+
+Lemma extends_mono s s' : extends s s' -> mono (tasks s) (tasks s').
+Proof. intros (_ & _ & _ & new & -> & _). apply mono_app. Qed.
+
+Lemma extends_nth s s' k t : extends s s' -> nth_error (tasks s) k = Some t -> nth_error (tasks s') k = Some t.
+Proof. intros (_ & _ & _ & new & -> & _) H. apply nth_error_app_old; auto. Qed.
+
+Lemma mk_task_fresh s u ids m : fresh (mk_task s u ids m).
+Proof.
+  unfold mk_task, fresh. destruct (pre_err s ids m); cbn; auto.
+  destruct (is_nil (j_method m)); cbn; auto.
+  destruct (assign_method s (j_method m)); cbn; auto.
+Qed.
+
+Lemma dequeue_extends s : extends s (dequeue s).
+Proof.
+  unfold dequeue. destruct (inq s) as [|[b ms] q].
+  - destruct (running s); apply core_eq_extends; repeat split.
+  - cbn. repeat split. eexists. split; [reflexivity|].
+    apply Forall_forall. intros x Hx. apply in_map_iff in Hx as (m & <- & _). apply mk_task_fresh.
+Qed.
+
+Lemma settle1_extends s s' os : settle1 s = Some (s', os) -> extends s s'.
+Proof.
+  intros H. apply settle1_inv in H. destruct H; try solve [apply core_eq_extends; unfold core_eq, set_unit; cbn; auto].
+  apply dequeue_extends.
+Qed.
+
+Lemma settle_extends : forall fuel s acc s' os, settle fuel s acc = (s', os) -> extends s s'.
+Proof.
+  induction fuel as [|f IH]; cbn; intros s acc s' os H.
+  - injection H as <- <-. apply core_eq_extends, core_eq_refl.
+  - destruct (settle1 s) as [[s1 os1]|] eqn:E.
+    + eapply extends_trans; [eapply settle1_extends; eauto|eapply IH; eauto].
+    + injection H as <- <-. apply core_eq_extends, core_eq_refl.
+Qed.
+
+(** * The other helpers *)
+Lemma no_start_nil : no_start [].
+Proof. intros p c []. Qed.
+
+Lemma no_start_app a b : no_start a -> no_start b -> no_start (a ++ b).
+Proof. intros A B p c H. apply in_app_or in H as [H|H]; [eapply A|eapply B]; eauto. Qed.
+
+Lemma complete_cb_core i r s s' os : complete_cb i r s = (s', os) -> core_eq s s' /\ no_start os.
+Proof.
+  unfold complete_cb. destruct (nth_error (cbs s) i) as [c|].
+  - intros [= <- <-]. split; [repeat split|].
+    destruct (cb_ret c); [apply no_start_nil|]. intros p x [H|[]]. discriminate.
+  - intros [= <- <-]. split; [repeat split|apply no_start_nil].
+Qed.
+
+Lemma filter_batch_core : forall ms s keep acc s' keep' os,
+  filter_batch ms s keep acc = (s', keep', os) -> no_start acc -> core_eq s s' /\ no_start os.
+Proof.
+  induction ms as [|m r IH]; cbn; intros s keep acc s' keep' os H NA.
+  - injection H as <- <- <-. split; auto. apply core_eq_refl.
+  - destruct (is_req_or_notif m); [eapply IH; eauto|].
+    destruct (assoc (fix_id (j_id m)) (calls s)) as [i|].
+    + destruct (complete_cb i _ s) as [s1 os1] eqn:C.
+      apply complete_cb_core in C as [C1 C2].
+      destruct (IH _ _ _ _ _ _ H) as [I1 I2]; [apply no_start_app; auto|].
+      split; auto. eapply core_eq_trans; eauto.
+    + destruct (c_push s && is_nil (j_method m) && has_reply_fields m); eapply IH; eauto.
+Qed.
+
+(* what a critical section may do: keep wf, keep K, let tasks evolve, report no handler entry *)
+Definition quiet_ok (s s' : state) (os : list obs) : Prop :=
+  wf s' /\ c_K s' = c_K s /\ mono (tasks s) (tasks s') /\ no_start os.
+
+Lemma extends_quiet s s' os : wf s -> extends s s' -> no_start os -> quiet_ok s s' os.
+Proof.
+  intros W E N. split; [eapply extends_wf; eauto|]. split; [apply E|]. split; auto. apply extends_mono; auto.
+Qed.
+
+Lemma core_quiet s s' os : wf s -> core_eq s s' -> no_start os -> quiet_ok s s' os.
+Proof. intros W E N. apply extends_quiet; auto. apply core_eq_extends; auto. Qed.
+
+Lemma quiet_core_post s s' s'' os : quiet_ok s s' os -> core_eq s' s'' -> quiet_ok s s'' os.
+Proof.
+  intros (W & K & M & N) (K2 & T2 & F2 & Q2). unfold quiet_ok, wf, wf0. rewrite K2, T2, F2, Q2. auto.
+Qed.
+
+Lemma stop_locked_ok c s s' os : wf s -> stop_locked c s = (s', os) -> quiet_ok s s' os.
+Proof.
+  intros W. unfold stop_locked. destruct (running s).
+  2: { cbn. intros [= <- <-]. apply core_quiet; auto. apply core_eq_refl. apply no_start_nil. }
+  cbn -[fold_left].
+  match goal with |- context [fold_left ?f ?l ?s0] =>
+    set (s3 := s0); set (L := l); set (F := fold_left f L s3) end.
+  assert (C3 : core_eq s s3) by (unfold s3; destruct (work_closed s); repeat split).
+  assert (W3 : wf s3).
+  { destruct C3 as (K3 & T3 & F3 & Q3). unfold wf, wf0. rewrite K3, T3, F3, Q3. exact W. }
+  assert (HF : wf F /\ c_K F = c_K s3 /\ mono (tasks s3) (tasks F))
+    by (apply (fold_cancel_spec (@snd bytes nat) L s3 W3)).
+  destruct HF as (WF & KF & MF).
+  assert (N : no_start [OClose]) by (intros p x [H|[]]; discriminate).
+  assert (Q : quiet_ok s F [OClose]).
+  { destruct C3 as (K3 & T3 & F3 & Q3). split; auto. split; [congruence|]. split; auto. rewrite <- T3. exact MF. }
+  destruct (c_unblock F) eqn:U; intros [= <- <-];
+    (eapply quiet_core_post; [exact Q|repeat split]).
+Qed.
